@@ -18,7 +18,9 @@
     TLC (OracleTagTree) checks it on the tree the real scanner built for every generated text.
 (B1) code -> spec (E4, hook H2): the real scanner reports its complete projected state before every dispatched token; TLC
     (TraceQTemplateParse) accepts a step only if the model has a transition for that token from the logged state to the state
-    logged next, and evaluates the invariants in every recorded state.
+    logged next, and evaluates the invariants in every recorded state.  A step the model does not have is model drift (reported in
+    the evidence, the transcription must be brought up to date) - not a verdict on C01; a loop_tag / storage / parent_storage
+    pointer that the hook cannot find in the live tag tree is a violation whatever the model says.
 (B2) the generated texts - token-class sequences in several spellings, every truncation / deletion / duplication / delimiter
     swap of well-formed templates generated for C02, quote and bracket characters inside attribute values, nests 300 and 600
     deep (beyond the 8-bit level) - are rendered from exact-size unterminated buffers in 4 character widths into a non-empty
@@ -107,6 +109,18 @@ def validate_traces(c, xasan, inp, cases):
     for i, k in enumerate(sel):
         chunks[i % nchunks].append(k)
     toks = collections.Counter()
+    mismatches = []
+    # model-independent: the hook looks loop_tag, storage and every parent_storage entry up in the live tag tree; [-1] = not there
+    for k, lines in per.items():
+        for ln in lines:
+            if '"tok":12,' in ln:
+                continue       # after the final clean-up loop_tag is dead (never read again): QTemplateParseImpl.ChainLive is for the scan phase too
+            if '"lt":[-1]' in ln or '"cur":[-1]' in ln or '[-1]' in ln[ln.index('"ps":'):ln.index('"cur":')]:
+                e = json.loads(ln)
+                what = "loop_tag" if e["lt"] == [-1] else ("storage" if e["cur"] == [-1] else "parent_storage")
+                c.violation("template-scanner dangling pointer: %s refers to a record that is not in the tag tree any more (token %d, event %d) template=%r" % (
+                    what, e["tok"], e["i"], cases[k][0][:200]), {"kind": "dangling", "case": k, "event": e, "template": cases[k][0], "value": cases[k][1]})
+                break
 
     def job(i):
         tp = os.path.join(c.out, "parse_%d.ndjson" % i)
@@ -135,9 +149,11 @@ def validate_traces(c, xasan, inp, cases):
                 if v[0] == "TRACE-END":
                     ended = v[1] == n
                 elif v[0] == "MISMATCH":
+                    # the real scanner took a step the transcription does not have: the transcription is out of date (model drift, listed
+                    # in the evidence) - by itself not a violation of C01; dangling pointers in the logged state are judged below
                     text, vj, fam = cases[v[1]]
-                    c.violation("template-scanner step not allowed by QTemplateParseImpl: %s (event %d) template=%r" % (v[3] if len(v) > 3 else "final state", v[2], text[:200]),
-                                {"kind": "trace-mismatch", "case": v[1], "event": v[2], "template": text, "value": vj, "events": [json.loads(x) for x in per[v[1]]]})
+                    mismatches.append(v[1])
+                    c.drift.append({"spec": "QTemplateParseImpl", "why": v[3] if len(v) > 3 else "final state", "event": v[2], "template": text[:300]})
                 elif v[0] == "TRUNCATED":
                     pass   # the crash that cut the case short was reported by run_cases
             if not ended and not r.violated:
@@ -146,7 +162,7 @@ def validate_traces(c, xasan, inp, cases):
         for ln in per[k]:
             toks[int(ln[ln.index('"tok":') + 6:ln.index(',"tree"')])] += 1
     c.count(n_eval=len(sel), validated=total)
-    c.stage("trace-validation", cases=len(sel), skipped_long=len(per) - len(sel), events=total, crashes=crashes,
+    c.stage("trace-validation", cases=len(sel), skipped_long=len(per) - len(sel), events=total, crashes=crashes, steps_unknown_to_the_model=len(mismatches),
             tokens={str(k): v for k, v in sorted(toks.items())})
 
 
@@ -204,6 +220,22 @@ def gen_cases(c):
                 continue
             for _ in range(2 if L <= 3 else 1):
                 add("".join(rnd.choice(SPELL[t]) for t in seq), "tokens")
+    # (a') spec -> code (E2): one token path for every distinct state of the scanner model (QTemplateParseImpl, the first path TLC found to
+    #      the state), spelled with well-formed and malformed variants of each token - the real scanner is driven to every state of the model
+    r = c.tlc("QTemplateParseImpl", "QTemplateParseImpl_export6" if c.thorough else "QTemplateParseImpl_export5", timeout=3000, xmx="16g", quiet=True)
+    paths = sorted(set(tuple(t[1]) for t in r.tuples("PATH")))
+    if len(paths) < 1000:
+        raise vf.MachineryError("the scanner model exported only %d token paths" % len(paths))
+    for path in paths:
+        for _ in range(2):
+            text = ""
+            for tok in path:
+                if tok == "VAR" and rnd.random() < 0.4:
+                    tok = "RAW"
+                text += rnd.choice(SPELL[tok])
+                if rnd.random() < 0.15:
+                    text += rnd.choice(SPELL["TEXT"])
+            add(text, "model-paths")
     # (b) mutations of well-formed templates
     nwf = 1500 if c.thorough else 250
     for i in range(nwf):
@@ -321,7 +353,7 @@ def main():
         c.oracle("OracleTemplate", tf, "OracleTemplate_tagfree", lambda e: "template tag-free text not rendered to itself %r -> %r" % ("".join(chr(u) for u in e["t"]), "".join(chr(u) for u in e["out"])), timeout=1800)
     for e in evs[5:len(evs):max(1, len(evs) // 5)]:
         c.sample({"fam": e["meta"]["fam"], "template": "".join(chr(u) for u in e["t"])[:160], "out": "".join(chr(u) for u in e["out"])[:80]})
-    c.finish(rule="token-class sequences (12 classes x up to 5 spellings, length <= %d, sampled from length 4) + well-formed templates with cuts (every cut "
+    c.finish(rule="one token path per distinct state of the scanner model (token paths up to length 5 quick / 6 thorough, two spellings each), token-class sequences (12 classes x up to 5 spellings, length <= %d, sampled from length 4) + well-formed templates with cuts (every cut "
                   "for each 10th), deletions, duplications, delimiter substitutions and excisions + quote/bracket characters inside paths and attributes, "
                   "each with a value tree drawn from 9 documents of every kind; distinct = distinct template texts" % maxlen,
              assumptions=["memory errors, traps and hangs are sensed by ASan/UBSan/alarm on the generated inputs; the design-level stack discipline is decided by TLC on QTemplateParseImpl",
